@@ -95,6 +95,9 @@ type world struct {
 	rnd        *roundH
 	threadMode bool
 	lastPanic  string
+
+	injMu sync.Mutex
+	inj   *injection
 }
 
 func (w *world) touch() { // w.mu held
@@ -295,7 +298,7 @@ func newWorld(start int, mbd int) *world {
 		defer func() { recover() }()
 		w.bm.Run(w.ctx, w.bmInt)
 	}()
-	w.nm = bitcoin_reader.NewNodeManager("/brv/", w.cfg, w.repo, nil)
+	w.nm = bitcoin_reader.NewNodeManager("/brv/", w.cfg, &injRepo{Repository: w.repo, w: w}, nil)
 	w.nm.SetBlockManager(w.btm, w.bm, &processor{w})
 	return w
 }
@@ -348,7 +351,11 @@ func (w *world) addBlock(parent int) (*blk, error) {
 }
 
 // view reads the best chain (ids by height) and the lowest height still held in memory.
-func (w *world) view() string {
+func (w *world) view() string { return w.viewSuffix("") }
+
+// viewSuffix: chain<sfx>=[ids by height] window<sfx>=k and, when the repository still knows blocks
+// that are not on the best chain, side<sfx>=[id:height:parent,...].
+func (w *world) viewSuffix(sfx string) string {
 	tip := w.repo.Height()
 	ids := make([]string, 0, tip+1)
 	hashes := make([]bitcoin.Hash32, 0, tip+1)
@@ -376,7 +383,39 @@ func (w *world) view() string {
 			break
 		}
 	}
-	return fmt.Sprintf("chain=%s window=%d", hx.List(ids), window)
+	out := fmt.Sprintf("chain%s=%s window%s=%d", sfx, hx.List(ids), sfx, window)
+	onChain := map[bitcoin.Hash32]bool{}
+	for _, h := range hashes {
+		onChain[h] = true
+	}
+	w.mu.Lock()
+	bl := append([]*blk{}, w.blocks...)
+	w.mu.Unlock()
+	var side []string
+	for _, b := range bl {
+		if onChain[b.hash] {
+			continue
+		}
+		hh := w.repo.HashHeight(b.hash)
+		if hh == -1 {
+			continue
+		}
+		p, _ := w.repo.PreviousHash(b.hash)
+		if p == nil {
+			continue
+		}
+		w.mu.Lock()
+		pid, ok := w.byHash[*p]
+		w.mu.Unlock()
+		if !ok {
+			continue
+		}
+		side = append(side, fmt.Sprintf("%d:%d:%d", b.id, hh, pid))
+	}
+	if len(side) > 0 {
+		out += fmt.Sprintf(" side%s=%s", sfx, hx.List(side))
+	}
+	return out
 }
 
 func errClass(err error) string {
@@ -571,6 +610,156 @@ func (w *world) busy() bool {
 	return w.rnd != nil || h
 }
 
+// applyHdr feeds n new headers to the real repository, on top of the best-chain block `fork`
+// below the tip or of block id `at`.
+func (w *world) applyHdr(a hx.Args) (string, bool) {
+	n, ok := a.Int("n")
+	if !ok || n < 0 || n > 5000 {
+		return "", false
+	}
+	parent := -1
+	if d, ok := a.Int("fork"); ok {
+		tip := w.repo.Height()
+		ph := tip - int(d)
+		if d < 0 || ph < 0 {
+			return "", false
+		}
+		hash, err := w.repo.Hash(w.ctx, ph)
+		if err != nil {
+			return "", false
+		}
+		w.mu.Lock()
+		id, known := w.byHash[*hash]
+		w.mu.Unlock()
+		if !known {
+			return "", false
+		}
+		parent = id
+	} else if at, ok := a.Int("at"); ok {
+		w.mu.Lock()
+		nb := len(w.blocks)
+		w.mu.Unlock()
+		if at < 0 || int(at) >= nb {
+			return "", false
+		}
+		parent = int(at)
+	} else {
+		return "", false
+	}
+	res := "ok"
+	for i := 0; i < int(n); i++ {
+		b, err := w.addBlock(parent)
+		if err != nil {
+			res = errClass(err)
+			break
+		}
+		parent = b.id
+	}
+	return res, true
+}
+
+// ---- header repository seen by the NodeManager: the real one, plus a scripted change of the real
+// repository "right after the k-th call of <kind> returns during this round" ------------------------
+
+type injection struct {
+	kind  string
+	k     int
+	args  hx.Args
+	count int
+	fired bool
+	after string // view after the change, for the op text
+	res   string
+}
+
+type injRepo struct {
+	*headers.Repository
+	w *world
+}
+
+func (w *world) afterCall(kind string) {
+	w.injMu.Lock()
+	inj := w.inj
+	fire := false
+	if inj != nil && !inj.fired && inj.kind == kind {
+		inj.count++
+		if inj.count == inj.k {
+			inj.fired = true
+			fire = true
+		}
+	}
+	w.injMu.Unlock()
+	if fire {
+		res, ok := w.applyHdr(inj.args)
+		if !ok {
+			res = "bad"
+		}
+		v := w.viewSuffix("2")
+		w.injMu.Lock()
+		inj.res = res
+		inj.after = v
+		w.injMu.Unlock()
+	}
+}
+
+func (r *injRepo) LastHash() bitcoin.Hash32 {
+	res := r.Repository.LastHash()
+	r.w.afterCall("LastHash")
+	return res
+}
+
+func (r *injRepo) HashHeight(hash bitcoin.Hash32) int {
+	res := r.Repository.HashHeight(hash)
+	r.w.afterCall("HashHeight")
+	return res
+}
+
+func (r *injRepo) PreviousHash(hash bitcoin.Hash32) (*bitcoin.Hash32, int) {
+	a, b := r.Repository.PreviousHash(hash)
+	r.w.afterCall("PreviousHash")
+	return a, b
+}
+
+func (r *injRepo) Hash(ctx context.Context, height int) (*bitcoin.Hash32, error) {
+	a, b := r.Repository.Hash(ctx, height)
+	r.w.afterCall("Hash")
+	return a, b
+}
+
+func (r *injRepo) Height() int {
+	res := r.Repository.Height()
+	r.w.afterCall("Height")
+	return res
+}
+
+// parseInject: `inject=<Kind>#<k>:<key>=<v>,<key>=<v>`
+func parseInject(s string) (*injection, bool) {
+	i := strings.IndexByte(s, ':')
+	j := strings.IndexByte(s, '#')
+	if i < 0 || j < 0 || j > i {
+		return nil, false
+	}
+	kind := s[:j]
+	switch kind {
+	case "LastHash", "HashHeight", "PreviousHash", "Hash", "Height":
+	default:
+		return nil, false
+	}
+	k, err := strconv.Atoi(s[j+1 : i])
+	if err != nil || k < 1 || k > 1000 {
+		return nil, false
+	}
+	args := hx.Args{}
+	for _, kv := range strings.Split(s[i+1:], ",") {
+		if e := strings.IndexByte(kv, '='); e > 0 {
+			args[kv[:e]] = kv[e+1:]
+		}
+	}
+	if _, ok := args.Int("n"); !ok {
+		return nil, false
+	}
+	return &injection{kind: kind, k: k, args: args}, true
+}
+
 func step(wp **world, line string) string {
 	op := hx.OpPart(line)
 	verb, a := hx.Parse(op)
@@ -593,47 +782,9 @@ func step(wp **world, line string) string {
 	}
 	switch verb {
 	case "hdr":
-		n, ok := a.Int("n")
-		if !ok || n < 0 || n > 5000 {
+		res, ok := w.applyHdr(a)
+		if !ok {
 			break
-		}
-		parent := -1
-		if d, ok := a.Int("fork"); ok {
-			tip := w.repo.Height()
-			ph := tip - int(d)
-			if d < 0 || ph < 0 {
-				break
-			}
-			hash, err := w.repo.Hash(w.ctx, ph)
-			if err != nil {
-				break
-			}
-			w.mu.Lock()
-			id, known := w.byHash[*hash]
-			w.mu.Unlock()
-			if !known {
-				break
-			}
-			parent = id
-		} else if at, ok := a.Int("at"); ok {
-			w.mu.Lock()
-			nb := len(w.blocks)
-			w.mu.Unlock()
-			if at < 0 || int(at) >= nb {
-				break
-			}
-			parent = int(at)
-		} else {
-			break
-		}
-		res := "ok"
-		for i := 0; i < int(n); i++ {
-			b, err := w.addBlock(parent)
-			if err != nil {
-				res = errClass(err)
-				break
-			}
-			parent = b.id
 		}
 		return baseOp("hdr", a, "fork", "at", "n") + " " + w.view() + " r=" + res + " => ok"
 	case "prune":
@@ -681,14 +832,38 @@ func step(wp **world, line string) string {
 		if w.busy() || w.threadMode || !w.setOutcomes(a) {
 			break
 		}
+		var inj *injection
+		if spec, has := a["inject"]; has {
+			var ok bool
+			if inj, ok = parseInject(spec); !ok {
+				break
+			}
+		}
 		bound := roundBound
 		if ms, ok := a.Int("wait"); ok && ms > 0 && ms <= 20000 {
 			bound = time.Duration(ms) * time.Millisecond
 		}
 		w.drainHung()
+		w.injMu.Lock()
+		w.inj = inj
+		w.injMu.Unlock()
 		w.startRound()
 		ret := w.settle(bound)
-		return op + " => " + w.flush(ret) + w.pnote()
+		opText := baseOp("round", a, "src", "wait", "inject")
+		obs := w.flush(ret)
+		if inj != nil {
+			w.injMu.Lock()
+			w.inj = nil
+			fired, after, res := inj.fired, inj.after, inj.res
+			w.injMu.Unlock()
+			if fired {
+				opText += " " + after + " r2=" + res
+				obs = insertBeforeNote(obs, " inj=1")
+			} else {
+				obs = insertBeforeNote(obs, " inj=0")
+			}
+		}
+		return opText + " => " + obs + w.pnote()
 	case "release":
 		w.mu.Lock()
 		h := w.hung
@@ -820,6 +995,14 @@ func step(wp **world, line string) string {
 		return op + " => processed=" + hx.IntList(ids)
 	}
 	return op + " => bad-op"
+}
+
+// insertBeforeNote adds a field to an observation in front of a trailing ` #note`.
+func insertBeforeNote(obs, field string) string {
+	if i := strings.Index(obs, " #"); i >= 0 {
+		return obs[:i] + field + obs[i:]
+	}
+	return obs + field
 }
 
 func (c *canceller) isCancelled() bool {
@@ -996,7 +1179,9 @@ func genProcessed(r *hx.Rng, start, tip int) []int {
 }
 
 func gen(seed uint64, scripts int, tier string) {
-	r := hx.NewRng(seed)
+	// hx.Rng is a counter-based generator: consecutive seeds give the same stream shifted by one
+	// draw, so spread the seeds far apart
+	r := hx.NewRng(seed*0x2545F4914F6CDD1D + 0x9A3F)
 	slowBudget := 2
 	if tier == "thorough" {
 		slowBudget = 30
@@ -1050,7 +1235,7 @@ func gen(seed uint64, scripts int, tier string) {
 		if len(hs) > 0 || r.Chance(10) {
 			fmt.Printf("processed h=%s\n", heightsList(hs))
 		}
-		fam := r.Pick(40, 25, 10, 6, 8, 4, 7)
+		fam := r.Pick(32, 20, 9, 5, 8, 4, 7, 25)
 		if fam == 6 && slowBudget == 0 {
 			fam = 0
 		}
@@ -1092,6 +1277,28 @@ func gen(seed uint64, scripts int, tier string) {
 		case 5: // source outage long enough to end the block manager
 			fmt.Println("round src=[nonode*40] wait=700")
 			fmt.Println("interrupt")
+			fmt.Println("state")
+		case 7: // the header repository changes BETWEEN the round's own reads of it
+			kind := []string{"LastHash", "HashHeight", "PreviousHash", "Hash", "Height"}[r.Pick(30, 20, 30, 12, 8)]
+			if kind == "Hash" && tip >= 2 {
+				fmt.Printf("prune depth=%d\n", r.Intn(2)) // the fallback by height is only used for pruned headers
+			}
+			k := 1 + r.Intn(3)
+			if (kind == "LastHash" || kind == "HashHeight") && r.Chance(85) {
+				k = 1 // a round calls these once
+			}
+			var change string
+			if r.Chance(50) || tip < 1 {
+				change = fmt.Sprintf("fork=0,n=%d", 1+r.Intn(2)) // new headers on the tip
+			} else {
+				d := 1 + r.Intn(min(tip, 3)) // reorg replacing the last d blocks
+				change = fmt.Sprintf("fork=%d,n=%d", d, d+1+r.Intn(2))
+			}
+			src := ""
+			if r.Chance(25) {
+				src = " src=" + srcPattern(r, tip+3, 40)
+			}
+			fmt.Printf("round%s inject=%s#%d:%s\n", src, kind, k, change)
 			fmt.Println("state")
 		case 6: // the outstanding block leaves the best chain: needs the code's own 10 s poll
 			slowBudget--
